@@ -67,6 +67,38 @@ def write_file(case, recs):
             w.write(r)
         w.close()
         return f.getvalue()
+    if api == 'wbfile':
+        # a real file opened WRITE-ONLY ('wb'), as in the module documentation; the bytes are read back from disk
+        import os
+        import tempfile
+        d = tempfile.mkdtemp(prefix='c03wb')
+        path = os.path.join(d, 'out.vbs')
+        try:
+            with open(path, 'wb') as fh:
+                w = mciipm.VbsWriter(fh, blocked=blocked)
+                for r in recs:
+                    w.write(r)
+                w.close()
+            with open(path, 'rb') as fh:
+                return fh.read()
+        finally:
+            try:
+                os.remove(path)
+            finally:
+                os.rmdir(d)
+    if api in ('many2', 'manywrite'):
+        # the records handed over in two steps on ONE writer: write_many twice, or write_many and then write()
+        f = KeepOpen()
+        w = mciipm.VbsWriter(f, blocked=blocked)
+        half = len(recs) // 2
+        w.write_many(recs[:half])
+        if api == 'many2':
+            w.write_many(recs[half:])
+        else:
+            for r in recs[half:]:
+                w.write(r)
+        w.close()
+        return f.getvalue()
     if api == 'manygen':      # write_many fed from a generator
         f = KeepOpen()
         w = mciipm.VbsWriter(f, blocked=blocked)
@@ -195,6 +227,9 @@ def explore(run, tier):
         cases.append({'b': 0, 'lens': [n, 800, n], 'api': 'funcdef'})
     # one-shot iterators as input; files of more than 64 KiB (65+ blocks), blocked and unblocked
     for b in (0, 1):
+        for lens in ([5], [1, 2, 3], [1000, 1012, 7], [ml], [], [100], [1004], [1008, 1008, 40], [3, 4, 5, 6, 7, 8]):
+            for api in ('wbfile', 'many2', 'manywrite'):
+                cases.append({'b': b, 'lens': lens, 'api': api})
         for lens in ([5], [1, 2, 3], [1000, 1012, 7], [ml]):
             cases.append({'b': b, 'lens': lens, 'api': 'funcgen'})
             cases.append({'b': b, 'lens': lens, 'api': 'manygen'})
